@@ -263,7 +263,7 @@ Fixpoint value_ok (v : value) : bool :=
   | VDoc d => elems_ok d
   | VArr a => (fix go (l : list value) : bool :=
                  match l with [] => true | x :: r => value_ok x && go r end) a
-  | VBinary st b => (st <? 256)%N && bytes_ok b
+  | VBinary st b => ((st <=? 5) || ((128 <=? st) && (st <? 256)))%N && bytes_ok b
   | VObjectID b => bytes_ok b && Nat.eqb (length b) 12
   | VDateTime ms => in_i64 ms
   | VRegex p o => key_ok p && key_ok o
